@@ -169,6 +169,13 @@ func vhOne(addr string, i *IPC, args []string) string {
 		go func() {
 			var response []byte
 			var err error
+			// a body that makes the IPC function itself panic (the HTTP request has then been observed already:
+			// noresponse) must not take the driver process down
+			defer func() {
+				if r := recover(); r != nil {
+					ch <- ipcOut{nil, fmt.Errorf("verif: ipc panic")}
+				}
+			}()
 			switch args[2] {
 			case "client":
 				err = i.ClientOffers(messages.Arg{Body: twin, RemoteAddr: ""}, &response)
